@@ -323,8 +323,24 @@ def make_bitmaps(g, scale):
     return out
 
 
+def fixed_frozen_cases(g):
+    """always present: a completely full chunk stored as a BITMAP container (and as a run), a chunk of exactly 4097 values, the
+    empty bitmap — frozen by the three writers, viewed, validated"""
+    full = "ffffffffffffffff*1024"
+    for j, slots in enumerate(["7:B:65536:%s" % full, "0:R:0+65535;65535:B:65536:%s" % full, "3:A:1;9:B:65536:%s;10:A:5" % full]):
+        x, v = g.fresh("ff"), g.fresh("fv")
+        g.emit("mkrepr %s cow=0;%s" % (x, slots))
+        g.emit("frz %s" % x)
+        g.emit("fview %s %s" % (v, x))
+        g.emit("card %s" % v)
+        g.emit("wf %s" % v)
+        g.emit("toarr %s" % v)
+        g.count("frozen:fixed-full-bitmap")
+
+
 @suite("frozen")
 def _frozen(g, scale):
+    fixed_frozen_cases(g)
     r = g.r
     bms = make_bitmaps(g, scale)
     # phase A: writers
